@@ -132,6 +132,9 @@ pub enum InvalidSchemaError {
     #[error("Type \"{0}\" defines the field \"{1}\" multiple times.")]
     DuplicateFieldDefinition(String, String),
 
+    #[error("Field \"{1}\" on type \"{0}\" defines the parameter \"{2}\" multiple times.")]
+    DuplicateFieldParameterDefinition(String, String, String),
+
     #[error("Multiple types or intefaces with the name \"{0}\".")]
     DuplicateTypeOrInterfaceDefinition(String),
 
